@@ -61,13 +61,30 @@ func runCfg(c harness.Cfg) *explore.Result {
 	if c.Cross > 0 {
 		return crossCheck(c, b)
 	}
+	if c.Deep > 0 {
+		// no merging by state keys: every thread is identified by its full observation
+		// history, so a loop-carried local that the state key cannot see (a counter, a
+		// growing delay) still separates states; the depth cut is not a verdict
+		ch := c
+		ch.KeyHistory = true
+		ch.MaxSteps = c.Deep
+		budget := time.Duration(c.BudgetS) * time.Second
+		if budget == 0 {
+			budget = 40 * time.Second
+		}
+		e := &explore.Explorer{Sc: b(ch), Bound: -1, DepthIsEnd: true, Budget: budget}
+		r := e.Run()
+		r.Config = c.String()
+		r.CompletedBound = -1
+		return r
+	}
 	sc := b(c)
 	if c.BudgetS == 0 {
 		c.BudgetS = 120
 	}
 	budget := time.Duration(c.BudgetS) * time.Second
 	if c.Bound != -1 || c.NoFallback {
-		e := &explore.Explorer{Sc: sc, Bound: c.Bound, Graph: c.Graph, MaxSt: c.MaxStates, Budget: budget}
+		e := &explore.Explorer{Sc: sc, Bound: c.Bound, Graph: c.Graph, MaxSt: c.MaxStates, Budget: budget, DeepFirst: os.Getenv("CQMC_DEEPFIRST") != ""}
 		r := e.Run()
 		r.CompletedBound = -1
 		if r.Exhaustive && c.Bound >= 0 {
